@@ -172,19 +172,45 @@ Example C07_example :
 Proof. exact example_nontrivial. Qed.
 Print Assumptions C07_example.
 
-(* The statement "same return values and exception types" is FALSE of the faithful model in two
-   classes of cases; both witnesses replay on /repo (known findings). *)
+(* Unknown event names (was KF-C07-1, fixed in /repo as D30: AsyncMachine._get_trigger is now a
+   coroutine function handing through the result of Machine._get_trigger): for every machine,
+   behaviour (raising or not), suspension assignment and state, `await model.trigger(name)` with a
+   name the machine does not know runs no callback, keeps the state and gives exactly what the
+   synchronous machine gives — False on a state that ignores invalid triggers, AttributeError
+   otherwise, ValueError for an unregistered state. *)
+Theorem C07_unknown_event :
+  forall (mc : machine) (rp : cbid -> reply) (susp : cbid -> nat) (c : ctx) (e : event)
+         (p : nat) (s : state),
+    lookup (m_events mc) e = None ->
+    let a := atrigger mc rp susp c e s in
+    let f := trigger mc (ev_of rp) c e p s in
+    fst (fst a) = [] /\ fst (fst f) = [] /\ snd (fst a) = snd (fst f) /\ snd a = aresult_of (snd f).
+Proof. exact unknown_event_same. Qed.
+Print Assumptions C07_unknown_event.
 
-(* KF-C07-1: `await model.trigger(name)` with a name the machine does not know, in a state that
-   ignores invalid triggers: Machine returns False; AsyncMachine inherits the plain function
-   Machine._get_trigger, which returns the plain value False — awaiting it raises TypeError. *)
-Theorem C07_unknown_event_refuted :
+(* hence model.trigger(name) agrees with the synchronous machine for EVERY name *)
+Theorem C07_flat_any_name :
+  forall (mc : machine) (rp : cbid -> reply) (susp : cbid -> nat) (c : ctx) (e : event)
+         (p : nat) (s : state),
+    no_raise_rp rp ->
+    let a := atrigger mc rp susp c e s in
+    let f := trigger mc (ev_of rp) c e p s in
+    stage_view (fst (fst a)) = fst (fst f) /\ snd (fst a) = snd (fst f) /\ snd a = aresult_of (snd f).
+Proof. exact flat_sim_any_name. Qed.
+Print Assumptions C07_flat_any_name.
+
+Example C07_unknown_event_example :
   let rp := fun _ : cbid => mkReply true None [] in
   let c := mkCtx 0 0 false in
   snd (trigger mc_unknown (ev_of rp) c 7 0 0) = inr false /\
-  snd (atrigger mc_unknown rp (fun _ => 0) c 7 0) = AwNotAwaitable.
-Proof. exact unknown_event_differs. Qed.
-Print Assumptions C07_unknown_event_refuted.
+  snd (atrigger mc_unknown rp (fun _ => 0) c 7 0) = AwRet false /\
+  snd (trigger mc_unknown (ev_of rp) c 7 0 1) = inl AttributeError /\
+  snd (atrigger mc_unknown rp (fun _ => 0) c 7 1) = AwExn AttributeError.
+Proof. exact unknown_event_example. Qed.
+Print Assumptions C07_unknown_event_example.
+
+(* The statement "same callbacks" is FALSE of the faithful model in one class of cases; the witness
+   replays on /repo (known finding). *)
 
 (* KF-C07-2: a callback raises and another callback is registered after it in the same list: the
    synchronous machine never calls the later one; the asynchronous machine has scheduled the whole
